@@ -39,7 +39,7 @@ instance (p : Position) (m : Nat) : Decidable (UndoOK p m) :=
     ⟨fun ⟨a, b⟩ => ⟨a, b⟩, fun h => ⟨h.toMoveOK, h.normal2⟩⟩
 
 instance (p : Position) : Decidable (Ranges p) :=
-  decidable_of_iff (p.castling < 16 ∧ p.ep < 65 ∧ p.halfmove < 256 ∧ p.side ≤ 1)
+  decidable_of_iff (p.castling < 16 ∧ p.ep < 65 ∧ p.halfmove < 65536 ∧ p.side ≤ 1)
     ⟨fun ⟨a, b, c, d⟩ => ⟨a, b, c, d⟩, fun h => ⟨h.castling, h.ep, h.halfmove, h.side⟩⟩
 
 /-- board shape the bitboard view needs: 64 squares, codes 0..12 -/
@@ -118,9 +118,9 @@ instance (s : Spec.SPos) (m : Spec.SMove) : Decidable (StepOK s m) :=
 
 /-- evaluated by the driver at every state line of the RULES side: every legal move has the shape C02's theorem assumes -/
 def specHypothesesHold (s : Spec.SPos) : Bool :=
-  decide (254 < s.halfmove) || (Spec.legalMoves s).all (fun m => decide (StepOK s m))
+  decide (65534 < s.halfmove) || (Spec.legalMoves s).all (fun m => decide (StepOK s m))
 
-theorem specHypothesesHold_sound (s : Spec.SPos) (h : specHypothesesHold s = true) (hh : s.halfmove < 255) :
+theorem specHypothesesHold_sound (s : Spec.SPos) (h : specHypothesesHold s = true) (hh : s.halfmove < 65535) :
     ∀ m ∈ Spec.legalMoves s, StepOK s m := by
   unfold specHypothesesHold at h
   simp only [Bool.or_eq_true, decide_eq_true_eq, List.all_eq_true] at h
